@@ -77,18 +77,20 @@ Section WithSchedule.
 
   (* volatileTaskRepo.MarkAsDispatched *)
   Definition v_mark_disp (s : vsys) (id : string) : vsys * res :=
-    match pt_min None (cr_pending (vs_cron s)) with
-    | None => (s, RErr EExhausted)
-    | Some h =>
-      if match id_of (vs_ids s) (pt_ins h) with Some i => String.eqb i id | None => false end
-      then let (c', _) := pop nxt (vs_cron s) (vs_now s) in (set_vcron s c', ROk)
-      else match rec_get (vs_record s) id with
-           | Some _ => (mkVS (vs_cron s) (vs_ids s) (rec_del (vs_record s) id) (vs_now s) (vs_last s) (vs_err s) (vs_pc s)
-                             (vs_accepted s) (vs_running s) (vs_results s) (vs_starts s) (vs_retry s),
-                        RErr EAlreadyCancelled)
-           | None => (s, ROk)
-           end
-    end.
+    let hd := pt_min None (cr_pending (vs_cron s)) in
+    if match hd with
+       | Some h => match id_of (vs_ids s) (pt_ins h) with Some i => String.eqb i id | None => false end
+       | None => false
+       end
+    then let (c', _) := pop nxt (vs_cron s) (vs_now s) in (set_vcron s c', ROk)
+    else match rec_get (vs_record s) id with
+         | Some _ =>
+           (* a different head, or no head at all (F19): the fetched task was cancelled meanwhile *)
+           (mkVS (vs_cron s) (vs_ids s) (rec_del (vs_record s) id) (vs_now s) (vs_last s) (vs_err s) (vs_pc s)
+                 (vs_accepted s) (vs_running s) (vs_results s) (vs_starts s) (vs_retry s),
+            RErr EAlreadyCancelled)
+         | None => (s, match hd with None => RErr EExhausted | Some _ => ROk end)
+         end.
 
   Definition vaccept (s : vsys) (t : task) : vsys :=
     mkVS (vs_cron s) (vs_ids s) (vs_record s) (vs_now s) (vs_last s) (vs_err s) (PEnd (SDispatched (t_id t)) false)
@@ -280,7 +282,10 @@ Section WithSchedule.
               | _ => Some (set_vpc s (PEnd SNone false))
               end
             else None
-          | None => if cret_eqb r (RRes (RErr EIdNotFound)) then Some (set_vpc s (PEnd (SDispatchErr t) true)) else None
+          | None =>
+            if cret_eqb r (RRes (RErr EIdNotFound))
+            then Some (set_vpc s (PEnd SNone false))   (* the task is gone: nothing left to dispatch (F18) *)
+            else None
           end
         else None
       | _, _ => None
